@@ -420,7 +420,11 @@ def equality_shard(i, acc):
                         {"case": {"doc": i, "stack": stack, "object": n, "perturbation": desc}, "observed": r, "expected": "!= both ways"},
                     )
         # cross-class pairs with equal content
+        class MyEntry(Entry):
+            pass
+
         pairs = [
+            (Entry("a", "k", [Field("f", "v", 1)], 1, "r"), MyEntry("a", "k", [Field("f", "v", 1)], 1, "r")),
             (ImplicitComment("c", 1, "c"), ExplicitComment("c", 1, "c")),
             (Preamble("c", 1, "c"), ExplicitComment("c", 1, "c")),
             (String("k", "v", 1, "r"), Field("k", "v", 1)),
